@@ -626,7 +626,7 @@ func (s *scanner) readValueDepth(depth int) (pdf.Object, error) {
 		if depth >= maxValueDepth {
 			return nil, parseError{}
 		}
-		var arr pdf.Array
+		arr := pdf.Array{} // not nil: a nil array is written as null
 		for {
 			if err := s.SkipWhiteSpace(); err != nil {
 				return nil, err
